@@ -101,3 +101,65 @@ func HEAD_ubjson(h *rt.H) {
 	in = append(in, h.Bytes("tail", 1)...)
 	survive(h, ubjsonCodec, in)
 }
+
+// contextPrefixes: openings that put a parser into the middle of a container (nested,
+// counted, typed, after a key, in an indefinite container), so that the symbolic bytes
+// which follow are read in those states rather than at top level.
+func contextPrefixes(c *codec) [][]byte {
+	switch c {
+	case cborCodec:
+		return [][]byte{
+			{0x82},             // array(2)
+			{0xa1, 0x61, 'a'},  // map(1), key "a"
+			{0x9f},             // array(*)
+			{0xbf, 0x61, 'a'},  // map(*), key "a"
+			{0x82, 0x81},       // array(2) > array(1)
+			{0x9f, 0x82, 0x01}, // array(*) > array(2) with one element
+			{0xa2, 0x60},       // map(2), empty key
+		}
+	case ubjsonCodec:
+		return [][]byte{
+			{'['},
+			{'[', '#', 'i', 2},
+			{'[', '$', '[', '#', 'i', 2}, // typed array of arrays
+			{'[', '$', '{', '#', 'i', 2}, // typed array of objects
+			{'{', 'i', 1, 'a'},
+			{'{', '#', 'i', 2, 'i', 1, 'a'},
+			{'{', '$', '[', '#', 'i', 1, 'i', 1, 'a'}, // typed object of arrays, after the key
+			{'[', '[', '#', 'i', 1},
+			{'[', '#', 'i', 2, '['},           // plain array inside a counted one
+			{'[', '$', '[', '#', 'i', 2, '$'}, // typed array of arrays, at the element type of the first inner typed array
+			{'[', '$', '{', '#', 'i', 2, '$'},
+			{'[', '#', 'i', 2, '[', '$'},
+		}
+	}
+	return [][]byte{
+		[]byte(`[`),
+		[]byte(`{"a":`),
+		[]byte(`[1,`),
+		[]byte(`{"a":1,`),
+		[]byte(`[[`),
+		[]byte(`{"a":[`),
+		[]byte(`["x",`),
+	}
+}
+
+// prefixedBytes: a context prefix followed by every byte string of length N, through
+// the arbitrary-bytes harness (C03) and the conformance harness (C04-C06, C09).
+func prefixedBytes(h *rt.H, c *codec, conformance bool) {
+	ps := contextPrefixes(c)
+	p := ps[h.Choose("prefix", 0, len(ps)-1)]
+	in := append(append([]byte{}, p...), h.Bytes("in", h.Param("N", 3))...)
+	if conformance {
+		conform(h, c, in)
+	} else {
+		survive(h, c, in)
+	}
+}
+
+func PREFIXED_cborl(h *rt.H)       { prefixedBytes(h, cborCodec, false) }
+func PREFIXED_ubjson(h *rt.H)      { prefixedBytes(h, ubjsonCodec, false) }
+func PREFIXED_json(h *rt.H)        { prefixedBytes(h, jsonCodec, false) }
+func PREFIXED_Conf_cborl(h *rt.H)  { prefixedBytes(h, cborCodec, true) }
+func PREFIXED_Conf_ubjson(h *rt.H) { prefixedBytes(h, ubjsonCodec, true) }
+func PREFIXED_Conf_json(h *rt.H)   { prefixedBytes(h, jsonCodec, true) }
